@@ -56,7 +56,7 @@ Implementation seams
                               `list(set(paths))` in Scheduler._discover yields the files in the chosen order
     build_scheduler(root, project, made_config, perm=None) -> Scheduler   (raises what Loki raises)
     observe_graph(scheduler) -> dict(nodes={name: (kind, is_ignored)}, edges={(a,b)}, dups=[..], cyclic=bool)
-    quiet_loki()
+    quiet_loki()              logger off + REGEX-frontend wall-clock timeout off (nondeterminism owned by the harness)
 
 Cases, shrinking, signatures
     case = dict(p=pspec, c=cspec, o=perm|None)
@@ -1081,10 +1081,14 @@ _FAIL_PRIORITY = ['duplicate-item', 'wrong-kind', 'unexpected-item kind=External
 
 # ----------------------------------------------------------------------------- implementation seams
 def quiet_loki():
+    """Silence Loki's logger and switch off the wall-clock timeout of the REGEX frontend (default 30 s, a SIGALRM):
+    on a loaded machine it makes a parse fail nondeterministically, which is not a property of the code under test."""
     import logging
     import loki.logging as ll
+    from loki import config
     ll.logger.setLevel(logging.CRITICAL)
     logging.getLogger('Loki').setLevel(logging.CRITICAL)
+    config['regex-frontend-timeout'] = 0
 
 
 def discovery_orders(project):
